@@ -411,6 +411,12 @@ def cases(seed: int = 0, thorough: bool = False):
             lambda args=args: np.arange(*args, dtype=np.float64), {}, "construct")
     xa = _arr(rng, (2, 3), "float32")
     add("zeros_like", lambda x: pt.zeros_like(x), lambda x: np.zeros_like(x), {"x": xa}, "construct", exact=True)
+    for dt in ("int64", "int8", "uint32", "bool", "float32", "complex128"):
+        xd = _arr(rng, (2, 3), dt)
+        add(f"zeros_like:{dt}", lambda x: pt.zeros_like(x), lambda x: np.zeros_like(x), {"x": xd}, "construct", exact=True)
+        add(f"ones_like:{dt}", lambda x: pt.ones_like(x), lambda x: np.ones_like(x), {"x": xd}, "construct", exact=True)
+        add(f"zeros_like:{dt}:dtype=float64", lambda x: pt.zeros_like(x, dtype=np.float64),
+            lambda x: np.zeros_like(x, dtype=np.float64), {"x": xd}, "construct", exact=True)
     add("ones_like", lambda x: pt.ones_like(x), lambda x: np.ones_like(x), {"x": xa}, "construct", exact=True)
     add("zeros_like-dtype", lambda x: pt.zeros_like(x, dtype=np.int64), lambda x: np.zeros_like(x, dtype=np.int64), {"x": xa},
         "construct", exact=True)
